@@ -95,6 +95,7 @@ type LoopSpec struct {
 	Ordinal    int
 	Label      string
 	Invariants []*Clause
+	Assumes    []*Clause // assumed at the loop head without proof (reported as an unverified assumption)
 	Decreases  *Clause
 	Modifies   []Expr // extra havoc set (optional)
 }
